@@ -256,6 +256,66 @@ pub fn run_case(c: &Case, drv: &mut Drv) -> Outcome {
         }
         }
     }
+    // the corruption flag (what manifest recovery consults): never raised on a file nobody damaged
+    // (cut or not), and equal to the model's on the intact file and on damaged variants of it
+    if model_fail.is_none() && oracle_fail.is_none() {
+        let mut prng = Prng::new(c.dseed ^ 0xF1A6);
+        let mut variants: Vec<(String, Vec<u8>)> = vec![("intact".into(), file.clone())];
+        // fragment type bytes of the (well-formed) file
+        let mut type_offs = vec![];
+        let mut pos = 0usize;
+        while pos + H <= file.len() {
+            if B - (pos % B) < H {
+                pos += B - (pos % B);
+                continue;
+            }
+            let len = file[pos + 4] as usize + 256 * file[pos + 5] as usize;
+            type_offs.push(pos + 6);
+            pos += H + len;
+        }
+        if !type_offs.is_empty() {
+            for _ in 0..2 {
+                let o = *prng.pick(&type_offs);
+                if o < file.len() {
+                    let mut d = file.clone();
+                    d[o] = prng.below(5) as u8;
+                    variants.push((format!("type byte at {o} set to {}", d[o]), d));
+                }
+            }
+            let o = *prng.pick(&type_offs);
+            if o >= 2 && o - 2 < file.len() {
+                let mut d = file.clone();
+                d[o - 2] ^= 1 << prng.below(8);
+                variants.push((format!("length byte at {} changed", o - 2), d));
+            }
+        }
+        if !file.is_empty() {
+            let o = prng.below(file.len() as u64) as usize;
+            let mut d = file.clone();
+            d[o] ^= 1 << prng.below(8);
+            variants.push((format!("bit flipped at {o}"), d));
+        }
+        let scratch = Path::new("/log-damaged");
+        for (what, bytes) in variants {
+            fs.write_file_raw(scratch, bytes.clone());
+            let Ok((recs, err, clean, corrupt)) = raindb::verif::log_read_all_with_flags(dynfs.clone(), scratch) else { continue };
+            // (a writer that died after a whole fragment, followed by an append session, IS flagged -
+            // C15_log_dead_writer_then_append; the database never appends to such a log)
+            if what == "intact" && corrupt && c.cut.is_none() {
+                oracle_fail = Some("a log nobody damaged (written by the log writer, possibly cut short) is reported as corrupted: a manifest like this would be refused".into());
+                break;
+            }
+            let ans = drv.ask(&format!("log.readallf {}", hex(&bytes)));
+            if ans == "no-model" || err.is_some() {
+                continue;
+            }
+            let want = format!("{} {} {} {}", if clean { "clean" } else { "dirty" }, if corrupt { "corrupt" } else { "intact" }, recs.len(), recs.iter().map(|r| hex(r)).collect::<Vec<_>>().join(" "));
+            if ans.trim_end() != want.trim_end() {
+                model_fail = Some(format!("reader flags / records differ from the model on a file with {what}: implementation [{}] model [{}]", &want[..want.len().min(60)], &ans[..ans.len().min(60)]));
+                break;
+            }
+        }
+    }
     Outcome { oracle_fail, model_fail, file_len: file.len(), nrecs: expected.len() }
 }
 
